@@ -127,6 +127,15 @@ SUITES["seg6s"]["cfg"]["N"] = 6
 SUITES["seg6s"]["seeds"] = "SeedsSeg6s"
 SUITES["seg6s"]["maxid"] = 12
 SUITES["seg6s"]["design_depth"] = {"quick": -1, "thorough": 0}
+SUITES["seg5s"] = _seg_suite("seg5s", [1, 3], "D_1x3", [1, 1], "S_11", depth=(0, 1), sample={"quick": 30, "thorough": 1500})
+SUITES["seg5s"]["tla"] = {"N": "5", "T": "3", "Dims": "<- D_1x3", "Scale": "<- S_11"}
+SUITES["seg5s"]["cfg"]["N"] = 5
+SUITES["seg5s"]["cfg"]["enable"] = []           # IoU is enabled later, by calls of the alphabet (bulk path)
+SUITES["seg5s"]["extra_act"] = []
+SUITES["seg5s"]["seeds"] = "SeedsSeg5s"
+SUITES["seg5s"]["kinds"] = [2, 3, 4, 9, 10]
+SUITES["seg5s"]["maxid"] = 12
+SUITES["seg5s"]["design_depth"] = {"quick": -1, "thorough": 0}
 # primitive actions called directly (C01): action, .inverse(), .inverse().inverse()
 SUITES["prims3"] = {
     "tla": SUITES["struct3"]["tla"],
